@@ -2,8 +2,8 @@
 PROPS["C06"] = {
     "level": "proof",
     "explanation": "Every mmd_string_* / mmd_d_string_* wrapper of /repo/src/mmd.c and the engine-level mmd_engine_convert / _convert_to_data / _convert_to_file (plus epub_write_wrapper, textbundle_write_wrapper) are verified (goto-instrument --dfcc, real unmodified function enforced) against contracts over a ghost call trace: the callees one level down are used by contract, each appends (function id, arguments) to the trace and returns an uninterpreted result chosen by the harness. For all argument values the string and DString variants reach the same engine function with the same scalar arguments in the order create . set_language . engine_X . free(owns copy?) and return exactly its result; the caller's DString is outside every d_string wrapper's frame; for the plain-text formats convert, convert_to_data and convert_to_file all deliver body + one newline; for the packaged formats convert_to_data returns the format's package and convert_to_file must write the same package.",
-    "slice": "mmd_string_* and mmd_d_string_* {convert, convert_to_data, convert_to_file, has_metadata, metadata_keys, metavalue_for_key, update_metavalue_for_key, transclusion_manifest, convert_opml_to_text, convert_itmz_to_text}; mmd_engine_convert, mmd_engine_convert_to_data, mmd_engine_convert_to_file, mmd_engine_create_with_string/_dstring, mmd_engine_set_language, my_strdup; epub_write_wrapper, textbundle_write_wrapper",
-    "not_reached": "the command-line tool (main.c + argtable); byte equality of packaged outputs (package creators are uninterpreted); the engine core below the mmd_engine_* interface (parser, writers); agreement of the variants for FORMAT_MMD (convert_to_data returns the source text, convert/convert_to_file export an empty body) is not claimed -- the property lists HTML, LaTeX, Beamer, Memoir, OPML",
+    "slice": "mmd_string_* and mmd_d_string_* {convert, convert_to_data, convert_to_file, has_metadata, metadata_keys, metavalue_for_key, update_metavalue_for_key, transclusion_manifest, convert_opml_to_text, convert_itmz_to_text}; mmd_engine_convert, mmd_engine_convert_to_data, mmd_engine_convert_to_file, mmd_engine_create_with_string/_dstring, mmd_engine_set_language, my_strdup; epub_write_wrapper, textbundle_write_wrapper; main() of src/main.c (option -> extension mapping, per-file steps of the batch and stream modes, output stream and name), filename_with_extension",
+    "not_reached": "argument PARSING of the command-line tool (argtable3 is trusted; main() itself is under contract from parsed option records on: units c06_cli_main_batch / _stream), the -o / -l / -t / -e / -m option paths and more than two batch files; byte equality of packaged outputs (package creators are uninterpreted); the engine core below the mmd_engine_* interface (parser, writers); agreement of the variants for FORMAT_MMD (convert_to_data returns the source text, convert/convert_to_file export an empty body) is not claimed -- the property lists HTML, LaTeX, Beamer, Memoir, OPML",
     "trusted_base": ["cbmc/goto-cc/goto-instrument 6.11.0 (DFCC instrumentation, MiniSat2)", "x86-64 LP64 machine model", "lib/ds_sink.c (DString specification, refined by d_string.c per C19)"],
     "assumptions": ["callees one level below each function under contract are logging contracts: called-with / returned only; their frames are {ghost trace, the text buffer for update_metavalue, the output string for the exporter}",
                     "exported body shorter than 62 bytes in the engine-level units (no loop or branch of the functions under contract depends on it)",
